@@ -252,6 +252,9 @@ DIRECTED = [
     "R 0 1\nX_ERROR(0.125) 0\nM 0\nOBSERVABLE_INCLUDE(0) rec[-1]\nHERALDED_ERASE(0.01) 1\nDETECTOR rec[-1]",
     "R 0 1\nX_ERROR(0.125) 0\nM 0\nOBSERVABLE_INCLUDE(0) rec[-1]\nHERALDED_PAULI_CHANNEL_1(0.01, 0, 0, 0) 1",
     "R 0 1\nX_ERROR(0.125) 0\nM 0\nOBSERVABLE_INCLUDE(0) rec[-1]\nMPP Z0*Z1 Z1\nDETECTOR rec[-1]",
+    # separate MPP instructions with the same number of target tokens but different numbers of results, after an observable
+    "R 0 1 2 3\nX_ERROR(0.125) 0\nX_ERROR(0.25) 1\nX_ERROR(0.375) 2\nM 0\nOBSERVABLE_INCLUDE(0) rec[-1]\nMPP Z0*Z1\nTICK\nMPP Z2 Z3 Z1\nDETECTOR rec[-1]\nDETECTOR rec[-2]\nDETECTOR rec[-4]",
+    "R 0 1 2\nX_ERROR(0.125) 0\nX_ERROR(0.25) 2\nM 2\nOBSERVABLE_INCLUDE(1) rec[-1]\nMPP Z0 Z1 Z2\nTICK\nMPP Z0*Z2\nTICK\nMPP Z1*Z2 Z0*Z1*Z2 Z0\nOBSERVABLE_INCLUDE(0) rec[-1]\nMPP Z0*Z1*Z2*Z0*Z1\nDETECTOR rec[-1] rec[-2]",
     "R 0 1\nX_ERROR(0.125) 0\nM 0\nOBSERVABLE_INCLUDE(2) rec[-1]\nMZZ 0 1\nOBSERVABLE_INCLUDE(0) rec[-1]\nMYY 0 1\nMYY 0 1\nOBSERVABLE_INCLUDE(2) rec[-1] rec[-2]\nMR 1\nM 1\nOBSERVABLE_INCLUDE(0) rec[-1]",
     "R 0\nREPEAT 3 {\n    X_ERROR(0.125) 0\n    MR 0\n    OBSERVABLE_INCLUDE(0) rec[-1]\n    DETECTOR(1) rec[-1]\n    MPAD 1\n}",
     "R 0 1\nM 0 1\nOBSERVABLE_INCLUDE(1) rec[-1]\nDEPOLARIZE2(0.125) 0 1\nMZZ 0 1\nM 0 1\nDETECTOR(0.5) rec[-1] rec[-2] rec[-3]\nOBSERVABLE_INCLUDE(1) rec[-2]",
